@@ -196,15 +196,83 @@ STRENGTHENED.update({
  "w3_c18_m1": "(C18 unchanged: caught by C09 - first message to an http proxy for an https target is not CONNECT)",
  "w3_c20_m2": "C20 headers kind 'empty': headers={} with the request while the object's defaults carry a Content-Type",
 })
+NEEDS.update({
+ "w4_c01_m1": ("response.py _error_catcher: except (HTTPException, ConnectionError) instead of OSError", "streamed body + receive-side OSError that is no ConnectionError/timeout (EHOSTUNREACH) in mid-body: raw OSError reaches the caller"),
+ "w4_c01_m2": ("connectionpool.py urlopen status-retry tail: no drain_conn() before re-raising MaxRetryError", "preload_content=False (or release_conn=False) + retried status whose status budget is exhausted + raise_on_status: connection never returned"),
+ "w4_c02_m1": ("connectionpool.py urlopen: set_file_position moved inside try (same edit as c01_m1)", "one-shot body + second attempt + another thread holding a connection: extra None slot, maxsize exceeded"),
+ "w4_c02_m2": ("response.py close(): release only `if self._connection and not self._connection.is_closed`", "block=True pool + streamed response answered with Connection: close + disposed of by close(): slot lost, waiter never woken"),
+ "w4_c03_m1": ("response.py _error_catcher: release_conn() before conn.close() on an unclean exit", "read timeout in mid-body + a second thread taking the connection between the two statements + late tail"),
+ "w4_c03_m2": ("connection.py request(): _ResponseOptions(request_method=method.upper())", "lower-case method handed to urlopen ('head'): urllib3 expects no body, http.client and the server do"),
+ "w4_c04_m1": ("util/retry.py increment: read-error branch as if/elif ladder (allowed_methods only reached when read is None)", "explicit integer read budget + method outside allowed_methods + read error"),
+ "w4_c04_m2": ("util/retry.py _is_connection_error: any ProxyError counts as a connection error", "https proxy whose TLS handshake fails + `other` budget smaller than connect/total"),
+ "w4_c05_m1": ("_collections.py _prepare_for_method_change: single pass over names as spelt, matched against Title-Case names", "303 + content header not in canonical capitalisation"),
+ "w4_c05_m2": ("response.py REDIRECT_STATUSES built from HTTPStatus 3xx (adds 300, 304, 305)", "300/304/305 answer carrying Location"),
+ "w4_c06_m1": ("connectionpool.py is_same_host: port-less pool accepts any port of its host", "pool built without a port + redirect to another explicit port of the same host"),
+ "w4_c06_m2": ("poolmanager.py strip step: one spelling per field kept in an index", "plain dict holding a stripped field under two spellings + cross-origin redirect"),
+ "w4_c07_m1": ("connection.py HTTPSConnection.connect: server_hostname override folded into the initial value, overwritten by the tunnel host", "CONNECT tunnel + server_hostname set + certificate valid for the URL host only"),
+ "w4_c07_m2": ("poolmanager.py _merge_pool_kwargs returns the shared dict (same edit as w3_c17_m1)", "manager with TLS settings creates an http pool first, then an https pool: TLS settings gone, system store trusted"),
+ "w4_c08_m1": ("ssl_match_hostname.py _dnsname_match: IDN rule tested before the whole-label wildcard", "SAN *.example.com vs host xn--...example.com: false reject"),
+ "w4_c08_m2": ("ssl_match_hostname.py match_hostname: IP parsing only when the host starts with a digit or ':'", "IPv6 host starting with a hex letter (fe80::1, fd00::1): IP SAN rejected, DNS SAN accepted"),
+ "w4_c09_m1": ("poolmanager.py _proxy_requires_url_absolute_form: inlined decision without the proxy scheme", "http proxy + use_forwarding_for_https=True + https destination: absolute-form inside the tunnel"),
+ "w4_c09_m2": ("connectionpool.py HTTPSConnectionPool._new_conn: dial the proxy only when a tunnel is required", "https proxy + use_forwarding_for_https=True + https destination: dials the origin directly with proxy headers"),
+ "w4_c10_m1": ("connection.py close() no longer clears http.client's buffer; request() clears it on ValueError only", "request rejected with TypeError (None/float header value, float body), close(), next request on the same object"),
+ "w4_c10_m2": ("util/url.py _encode_target: partition on '?' before cutting '#'", "pool.urlopen target whose fragment contains '?' and no query before '#'"),
+ "w4_c11_m1": ("poolmanager.py redirect tail: kw['body_pos'] only `if isinstance(body_pos, int)`", "one-shot body + body-preserving redirect followed by the PoolManager"),
+ "w4_c11_m2": ("util/request.py body_to_chunks: `method not in _METHODS_NOT_EXPECTING_BODY` (no upper())", "body-less request with a lower-case method token through urlopen: Content-Length: 0 appears"),
+ "w4_c12_m1": ("response.py _flush_decoder sets the decoder to None", "zstd body read to its end, then one more read: DecodeError"),
+ "w4_c12_m2": ("response.py _update_chunk_length: chunk size must fully match [0-9A-Fa-f]+", "chunk-size followed by bad whitespace ('5 ;name=val') read through stream()/read_chunked()"),
+ "w4_c13_m1": ("connection.py getresponse: enforce_content_length=resp_options.decode_content", "request-level decode_content=False + Content-Length body cut short + sized reads"),
+ "w4_c13_m2": ("connectionpool.py urlopen: conn.close() moved from finally into the except handler (same edit as w3_c03_m2)", "preloaded body with intact framing and corrupt content coding (DecodeError) + keep-alive peer"),
+ "w4_c14_m1": ("util/url.py _normalize_host: zone_id.lstrip('%25') instead of [3:]", "zone id beginning with 2, 5 or %: [fe80::1%252a]"),
+ "w4_c14_m2": ("util/url.py _idna_encode: strict=True dropped", "host containing U+3002 / U+FF0E / U+FF61"),
+ "w4_c15_m1": ("poolmanager.py redirect: strip step guarded by `retries.remove_headers_on_redirect and ...`", "ProxyManager forwarded request + Retry(remove_headers_on_redirect=[]) + cross-host redirect: stale Host"),
+ "w4_c15_m2": ("connection.py HTTPSConnection.connect: dropped server_hostname.rstrip('.')", "host with trailing dot through a CONNECT tunnel: SNI with the dot"),
+ "w4_c16_m1": ("_collections.py HTTPHeaderDict.add: `new_vals != vals` instead of `is not`", "add() of a value equal to the single stored one under the stored spelling"),
+ "w4_c16_m2": ("_collections.py HTTPHeaderDict.__or__: returns self for an empty right-hand side", "d | {} then mutate one, observe the other"),
+ "w4_c17_m1": ("_collections.py RecentlyUsedContainer.clear: values snapshot taken outside the lock", "clear() racing set/delete/clear: dispose called 0 or 2 times"),
+ "w4_c17_m2": ("poolmanager.py ProxyManager.__init__: num_pools not passed on", "ProxyManager(num_pools=n != 10) + more than n https origins"),
+ "w4_c18_m1": ("poolmanager.py _default_key_normalizer: comprehension over key_class._fields (unknown keywords silently dropped)", "context keyword without a PoolKey field (proxy, proxy_config, misspelt names)"),
+ "w4_c18_m2": ("poolmanager.py connection_from_pool_key: lookup under the lock, creation outside", "two threads missing the same key at the same time: two pools for one key"),
+ "w4_c19_m1": ("connectionpool.py urlopen 'Try again' recursion drops timeout=", "request-level timeout differing from the pool's + failed first attempt + retries"),
+ "w4_c19_m2": ("util/timeout.py connect_timeout: regrouped None/unset cases", "Timeout(total=T, connect=None): connect phase unbounded"),
+ "w4_c20_m1": ("fields.py RequestField.__init__: a caller's plain dict is kept, not copied", "two RequestFields built with the same header dict + make_multipart on both"),
+ "w4_c20_m2": ("filepost.py encode_multipart_formdata: opening delimiter written through the UTF-8 writer", "explicit boundary with a latin-1 non-ASCII character"),
+})
+STRENGTHENED.update({
+ "w4_c01_m1": "C01 environment answers 'unreach' / 'body-unreach' (receive-side OSError that is no ConnectionError)",
+ "w4_c01_m2": "C01 retries configuration S0 (status budget below total)",
+ "w4_c02_m1": "(C02 unchanged: caught by C01's slot accounting with the unrewindable-body op)",
+ "w4_c03_m1": "(C03 is single-threaded: caught by C02's new script 'body-stalls' - connection closed under its holder)",
+ "w4_c03_m2": "C03 method alphabet: a lower-case 'head' whose response has a body",
+ "w4_c04_m2": "C04 pool kind 'tls-forwarding-proxy' (block P): handshake with the proxy can fail on every dial",
+ "w4_c05_m1": "C05 request content headers in mixed capitalisation",
+ "w4_c06_m1": "C06 single-host pool built without a port",
+ "w4_c06_m2": "C06 container 'dict2': every sensitive field under two spellings in a plain dict",
+ "w4_c07_m1": "C07 block 3b: server_hostname override on tunnelled routes",
+ "w4_c07_m2": "C07 block 4: the manager has created a plain-http pool before the https request",
+ "w4_c10_m1": "C10 family nonstr: inputs of the wrong type, then close() and re-use of the connection object",
+ "w4_c10_m2": "C10 URL family: every string <= 4 over {a ? # /} in path/query/fragment positions",
+ "w4_c11_m2": "(not detected, deliberately: which framing a body-less lower-case 'get' carries is an either-region of the statement - see DESIGN 10.3)",
+ "w4_c12_m2": "C12 response specs with other well-formed spellings of the chunk line (BWS before ';', upper-case hex, leading zeros)",
+ "w4_c13_m1": "C13 raw-bytes runs: decode_content=False with the request and every read call, on broken framing",
+ "w4_c13_m2": "known finding F-C13-c narrowed to the streamed read APIs (its match had absorbed this preload-only regression)",
+ "w4_c14_m1": "C14 host alphabet: zone ids beginning with '2', '5', '%'",
+ "w4_c14_m2": "C14 host alphabet: U+3002 / U+FF0E / U+FF61 between labels",
+ "w4_c15_m1": "C15 redirect follow-ups under caller strip policies (empty set, own field)",
+ "w4_c17_m2": "C17 part c2: every manager class x num_pools 1..3 x every origin sequence",
+ "w4_c18_m2": "(C18 is sequential: caught by C17 part d - racing connection_from_url must be atomic get-or-create)",
+ "w4_c19_m1": "C19 family retry: failed first attempt (refused / reset) and its retry under request-level timeouts",
+ "w4_c20_m1": "C20 pairs of RequestFields sharing one caller header dict; the caller's dict must stay as it was",
+})
 CAUGHT_BY_OTHER = {"w2_c07_m2": ["C18"], "w2_c15_m1": ["C09"], "w3_c01_m1": ["C02"], "w3_c02_m2": ["C01"], "w3_c05_m2": ["C11"],
-                   "w3_c07_m1": ["C08"], "w3_c09_m1": ["C18"], "w3_c15_m1": ["C09"], "w3_c17_m2": ["C02"], "w3_c18_m1": ["C09"], "c09_m2": ["C07", "C09"], "c07_m2": ["C07", "C08"]}
+                   "w3_c07_m1": ["C08"], "w3_c09_m1": ["C18"], "w3_c15_m1": ["C09"], "w3_c17_m2": ["C02"], "w3_c18_m1": ["C09"], "w4_c02_m1": ["C01"], "w4_c18_m2": ["C17"], "w4_c03_m1": ["C02"], "c09_m2": ["C07", "C09"], "c07_m2": ["C07", "C08"]}
 
 def main():
     out_root = "/verif/seeded"
     os.makedirs(out_root, exist_ok=True)
     rows = []
     for name in sorted(NEEDS):
-        if name.startswith("w2_") or name.startswith("w3_"):
+        if name[:3] in ("w2_", "w3_", "w4_"):
             w, x, m = name.split("_")
             src = "/tmp/mut%s_%s/deliver/%s" % (w[1], x, m)
         else:
